@@ -24,8 +24,6 @@ fn usage() -> ! {
 }
 
 fn main() {
-    // a panic inside the code under test is caught and judged by the oracle; keep stderr quiet
-    std::panic::set_hook(Box::new(|_| {}));
     let args: Vec<String> = std::env::args().skip(1).collect();
     if args.is_empty() {
         usage();
